@@ -1,6 +1,7 @@
 /- Model/C10Gen.lean — the C10 model instantiated with the facts the translator extracted. -/
 import PsutilModel.Model.C10
 import PsutilModel.Model.C10Plat
+import PsutilModel.Model.C10Lock
 import PsutilModel.Generated.C10
 namespace Psutil.C10
 
@@ -13,6 +14,13 @@ def genFormsSeparate : Bool :=
 def genSampleUnderLock : Bool :=
   Gen.C10.sampleUnderLockDisk && Gen.C10.sampleUnderLockNet
     && decide (Gen.C10.samplingLocks.eraseDups.length = 1)
+
+/-- … and that lock is an OBJECT created once, when the module is imported, named by a module-level name that is never
+    rebound: no caller looks a lock up (or creates one) at call time (Model/C10Lock) -/
+def genSamplingLockStatic : Bool := Gen.C10.samplingLockStatic && genSampleUnderLock
+
+/-- how the front ends come by their sampling lock, as extracted -/
+def lockPolicy : LockPolicy := if genSamplingLockStatic then .static (fun _ => 0) else .lazy
 
 /-- configuration of the model as extracted from the current source -/
 def cfg : Cfg :=
